@@ -106,6 +106,15 @@ static std::vector<NamedOp> catalogue() {
                  ST::string_stream s2(std::move(ss)); s2 << "tail"; return bytes_of(s2.to_string()) + num((long long)ss.size()););
     OP("buffer_own", ST::char_buffer a("short", 5), b; b.allocate(40, 'x'); ST::char_buffer c(b); a = std::move(c); b = a; ST::utf16_buffer u; u.allocate(20, u'\x20AC'); return bytes_of(a) + bytes_of(b) + bytes_of(u););
     OP("validation", return num((long long)ST::string::from_validated("plain", 5).size()) + bytes_of(ST::string("re\xC3\xA9l", ST_AUTO_SIZE, ST::check_validity)) + bytes_of(ST::string(L"w\x20ACz")););
+    // ---- literals (each operation has its own: different threads evaluate different literals of one type) ----
+    OP("lit16_a", using namespace ST::literals; return bytes_of(u"first UTF-16 literal \u20AC, longer than sixteen bytes"_st) + bytes_of(u"a16"_st) + bytes_of(u"buf16-a"_stbuf););
+    OP("lit16_b", using namespace ST::literals; return bytes_of(u"another, different UTF-16 literal \U0001F600 of some length"_st) + bytes_of(u"b16"_st) + bytes_of(u"buf16-b"_stbuf););
+    OP("lit32_a", using namespace ST::literals; return bytes_of(U"first UTF-32 literal \U0001F600 longer than sixteen bytes"_st) + bytes_of(U"a32"_st) + bytes_of(U"buf32-a"_stbuf););
+    OP("lit32_b", using namespace ST::literals; return bytes_of(U"second UTF-32 literal, not the same text at all \u00E9"_st) + bytes_of(U"b32"_st) + bytes_of(U"buf32-b"_stbuf););
+    OP("litw_a", using namespace ST::literals; return bytes_of(L"first wide literal \u20AC longer than sixteen bytes"_st) + bytes_of(L"aw"_st) + bytes_of(L"bufw-a"_stbuf););
+    OP("litw_b", using namespace ST::literals; return bytes_of(L"second wide literal with other contents entirely"_st) + bytes_of(L"bw"_st) + bytes_of(L"bufw-b"_stbuf););
+    OP("lit8", using namespace ST::literals; return bytes_of("narrow literal of more than sixteen bytes"_st) + bytes_of("n8"_st) + bytes_of("buf8"_stbuf) + bytes_of("{}-{x}"_stfmt(7, 255)););
+    OP("trim_sets", return bytes_of(S.s_long.trim("e \t")) + "|" + bytes_of(S.s_mixed.trim_left("key=")) + "|" + bytes_of(S.s_num.trim_right("0123456789")) + "|" + bytes_of(S.s_hex.trim("0f")););
 #undef OP
     return c;
 }
